@@ -89,7 +89,7 @@ PROPS = {
  },
  "C12": {
   "module": "Zog.Props.C12",
-  "theorems": COMMON + [P + "C12." + t for t in ["tests_run_once_in_order", "posts_in_order_stop_at_first_error", "post_error_one_issue", "plain_error_issue_at_node_path", "posts_gated_on_no_issue", "posts_run_when_clean", "post_error_not_caught", "custom_called_with_value", "custom_mismatch_no_call", "pre_mismatch_skips", "pre_error_skips", "pre_ok_runs_inner", "pre_validate", "engine_log_is_spec_log", "callbacks_see_their_own_path"]] + ["Zog.Spec.proc_ev"],
+  "theorems": COMMON + [P + "C12." + t for t in ["tests_run_once_in_order", "posts_in_order_stop_at_first_error", "post_error_one_issue", "plain_error_issue_at_node_path", "posts_gated_on_no_issue", "posts_run_when_clean", "post_error_not_caught", "custom_called_with_value", "custom_mismatch_no_call", "pre_mismatch_skips", "pre_error_skips", "pre_ok_runs_inner", "pre_validate", "engine_log_is_spec_log", "callbacks_see_their_own_path", "exec_ctx_resets_values", "ctx_get_exactly_passed", "ctx_get_absent_key", "ctx_without_reset_leaks"]] + ["Zog.Spec.proc_ev", "Zog.CtxVals.get_exactly_passed"],
   "streams": [eng(3000, 150000), eng(2000, 100000, "catch"), eng(2000, 100000, "pre"), eng(1500, 60000, "api")],
   "trusted_base": ENGINE_TB, "assumptions": ENGINE_ASSUME,
  },
